@@ -222,8 +222,8 @@ def run(ctx):
         plans.append(("nest_tx", dict(nkey=3, nval=2, ntx=2, depth=8, nest="tx", maxdirect=1, maxtxops=1), 50, 10))
         plans.append(("nest_set", dict(nkey=3, nval=2, ntx=2, depth=8, nest="set", maxdirect=2, maxtxops=2), 25, 10))
     else:
-        plans.append(("main", dict(nkey=3, nval=2, ntx=2, depth=16, nest=None, maxdirect=3, maxtxops=3), 1500, 18))
-        plans.append(("wide", dict(nkey=4, nval=3, ntx=3, depth=20, nest=None, maxdirect=4, maxtxops=3), 700, 22))
+        plans.append(("main", dict(nkey=3, nval=2, ntx=2, depth=16, nest=None, maxdirect=3, maxtxops=3), 1000, 18))
+        plans.append(("wide", dict(nkey=4, nval=3, ntx=3, depth=20, nest=None, maxdirect=4, maxtxops=3), 600, 22))
         plans.append(("free", dict(nkey=3, nval=3, ntx=2, depth=12, nest=None, maxdirect=12, maxtxops=12), 500, 14))
         plans.append(("nest_tx", dict(nkey=3, nval=2, ntx=3, depth=10, nest="tx", maxdirect=1, maxtxops=2), 300, 12))
         plans.append(("nest_set", dict(nkey=3, nval=2, ntx=2, depth=9, nest="set", maxdirect=2, maxtxops=2), 150, 11))
